@@ -209,6 +209,102 @@ pub fn run_one(c: Cfg16, cx: &mut Choices, obs: &mut Obs16) -> Result<(), String
     Ok(())
 }
 
+/// Cancellation: every record of `total` arrives (any order), the waits are polled to quiescence, and
+/// then the future that is running the check of batch `victim` is dropped before the check has a
+/// verdict. The other records of that batch must never be released with success (the check did not
+/// succeed): a panic, an error or a wait that stays pending are all loud enough. The other batches
+/// are then checked with either verdict and must be released exactly as usual.
+pub fn run_cancel(c: Cfg16, victim: usize, cx: &mut Choices) -> Result<(), String> {
+    let nb = nbatches(c);
+    let sh = Arc::new(StdMutex::new(Sh { fired: vec![None; nb + 2], wakers: (0..nb + 2).map(|_| None).collect(), calls: Vec::new(), waiting: vec![false; nb + 2] }));
+    let runner: Arc<StdMutex<Vec<Option<usize>>>> = Arc::new(StdMutex::new(vec![None; nb + 2]));
+    let batcher = Batcher::new(c.rpb, c.total, Box::new(|_| Vec::<usize>::new()));
+    let results: Arc<StdMutex<Vec<Option<Result<(), String>>>>> = Arc::new(StdMutex::new(vec![None; c.total]));
+    let mut ex = MiniExec::new();
+    let mut task_of = vec![usize::MAX; c.total];
+    let mut left: Vec<usize> = (0..c.total).collect();
+    let mut arrival = Vec::new();
+    let poll_all = |ex: &mut MiniExec, results: &Arc<StdMutex<Vec<Option<Result<(), String>>>>>, task_of: &Vec<usize>| {
+        while let Some(t) = ex.woken().first().copied() {
+            // a wait may panic when the check it depends on is gone: that is a loud outcome
+            if let Err(p) = common::catch(std::panic::AssertUnwindSafe(|| ex.poll(t))) {
+                if let Some(i) = task_of.iter().position(|x| *x == t) {
+                    results.lock().unwrap()[i] = Some(Err(format!("panic: {p}")));
+                }
+                ex.cancel(t);
+            }
+        }
+    };
+    while !left.is_empty() {
+        let i = left.remove(cx.choose(left.len()));
+        arrival.push(i);
+        let (sh2, run2) = (Arc::clone(&sh), Arc::clone(&runner));
+        let fut = {
+            let mut b = batcher.lock().unwrap();
+            b.get_batch(RecordId::from(i)).batch.push(i);
+            b.validate_record(RecordId::from(i), move |bi, batch: Vec<usize>| {
+                sh2.lock().unwrap().calls.push((bi, batch));
+                run2.lock().unwrap()[bi] = Some(i);
+                BatchGate { b: bi, sh: sh2 }
+            })
+        };
+        let res = Arc::clone(&results);
+        task_of[i] = ex.spawn(async move {
+            let r = fut.await;
+            res.lock().unwrap()[i] = Some(r.map_err(|e| format!("{e:?}")));
+        });
+        poll_all(&mut ex, &results, &task_of);
+    }
+    let Some(rv) = runner.lock().unwrap()[victim] else {
+        return Err(format!("no record ran the check of batch {victim} although all of its records arrived ({arrival:?})"));
+    };
+    if results.lock().unwrap()[rv].is_some() {
+        return Err(format!("record {rv} was released before the check of batch {victim} had a verdict"));
+    }
+    ex.cancel(task_of[rv]);
+    poll_all(&mut ex, &results, &task_of);
+    // the remaining batches get their verdicts in any order
+    let mut verdicts = vec![None; nb];
+    loop {
+        let fireable: Vec<usize> = {
+            let s = sh.lock().unwrap();
+            (0..nb).filter(|b| *b != victim && s.waiting[*b] && s.fired[*b].is_none()).collect()
+        };
+        if fireable.is_empty() {
+            break;
+        }
+        let b = fireable[cx.choose(fireable.len())];
+        let verdict = cx.choose(2) == 0;
+        verdicts[b] = Some(verdict);
+        let w = {
+            let mut s = sh.lock().unwrap();
+            s.fired[b] = Some(verdict);
+            s.wakers[b].take()
+        };
+        if let Some(w) = w {
+            w.wake();
+        }
+        poll_all(&mut ex, &results, &task_of);
+    }
+    let res = results.lock().unwrap();
+    for i in 0..c.total {
+        let b = i / c.rpb;
+        if b == victim {
+            if i != rv && matches!(res[i], Some(Ok(()))) {
+                return Err(format!(
+                    "record {i} of batch {b} was released with success although the check of its batch never produced a verdict (the future of record {rv}, which was running it, was dropped); arrival {arrival:?}"
+                ));
+            }
+        } else {
+            match (&res[i], verdicts[b]) {
+                (Some(r), Some(v)) if r.is_ok() == v => {}
+                (r, v) => return Err(format!("record {i} of batch {b} got {r:?}, its batch verdict was {v:?}, after the check of batch {victim} was cancelled (arrival {arrival:?})")),
+            }
+        }
+    }
+    Ok(())
+}
+
 /// Misuse histories: after records `0..k` arrived in order (batches checked successfully as they
 /// complete), the extra call `validate_record(x)` must be loud: a panic, or a future resolving to
 /// an error — never Ok and never a wait that can not complete.
@@ -267,6 +363,11 @@ fn run() {
             if let Err(e) = misuse(c, m[0].as_u64().unwrap() as usize, m[1].as_u64().unwrap() as usize) {
                 r.violation("batcher:replay", &e, rep.clone());
             }
+        } else if let Some(victim) = rep.get("cancel_victim").and_then(|v| v.as_u64()) {
+            let trace: Vec<u32> = rep["choices"].as_array().unwrap().iter().map(|x| x.as_u64().unwrap() as u32).collect();
+            if let Err(e) = explore::replay(&trace, |cx| run_cancel(c, victim as usize, cx)) {
+                r.violation("batcher:replay", &e, rep.clone());
+            }
         } else {
             let trace: Vec<u32> = rep["choices"].as_array().unwrap().iter().map(|x| x.as_u64().unwrap() as u32).collect();
             let mut obs = Obs16::default();
@@ -320,6 +421,25 @@ fn run() {
         } else if !st.complete {
             r.flag("exhaustive", false);
             r.note(format!("{c:?}: cap hit after {} executions; arrival orders seen {}", st.executions, obs.arrival_orders.len()));
+        }
+    }
+    // cancellation of the record that runs a batch's check
+    for rpb in 2..=3usize {
+        for total in [rpb, 2 * rpb, 2 * rpb + 1] {
+            let c = Cfg16 { rpb, total, push: true, eager: true };
+            for victim in 0..total / rpb {
+                let st = explore::explore(0, cap, |cx| run_cancel(c, victim, cx));
+                r.add("states", st.executions);
+                r.add("evaluations", st.executions);
+                r.add("transitions", st.choice_points);
+                r.add("cancellation_executions", st.executions);
+                if let Some(m) = st.machinery {
+                    r.machinery(&format!("cancel {c:?}: {m}"));
+                }
+                if let Some((trace, e)) = st.failure {
+                    r.violation(&format!("batcher:cancelled-check:rpb{rpb}-total{total}"), &e, json!({"part":"batcher","config":cfg_json(c),"cancel_victim":victim,"choices":trace}));
+                }
+            }
         }
     }
     // misuse histories
